@@ -269,6 +269,25 @@ impl C14 {
                             searching = None;
                             game = false;
                         }
+                    } else if choice == 5 && it.b % 4 == 3 {
+                        // ucinewgame while a search is running: the engine stops and joins it, so by the time
+                        // the following isready is answered exactly one bestmove for that go has been printed
+                        during += 1;
+                        s.send("ucinewgame");
+                        s.send("isready");
+                        let budget = match sr {
+                            Searching::Timed(b) | Searching::MoveTime(b) => b,
+                            _ => 0,
+                        };
+                        if expect!(|l| l == "readyok", grace + budget + 4_000).is_none() {
+                            fail!("isready-unanswered", "isready after ucinewgame during a {:?} search unanswered", sr);
+                        }
+                        if bestmoves != accepted_go {
+                            fail!("bestmove-count", "ucinewgame during a {:?} search: {} accepted go commands, {} bestmove lines once readyok arrived", sr, accepted_go, bestmoves);
+                        }
+                        ev.class("ucinewgame_while_searching");
+                        searching = None;
+                        game = false;
                     } else if infinite && (choice == 1 || choice == 2) && bestmoves < accepted_go {
                         during += 1;
                         let cmd = ["show", "position startpos", "go depth 1"][it.a as usize % 3];
@@ -363,6 +382,20 @@ impl C14 {
                 }
             }
         }
+        // one ending in four: quit while the search is still running - the process must simply exit
+        let quit_while_searching = searching.is_some() && case.intents.last().map(|i| i.b % 4 == 1).unwrap_or(false);
+        if quit_while_searching {
+            match s.quit_within(grace) {
+                Some(0) => {}
+                other => fail!("engine-does-not-exit-cleanly", "quit while a {:?} search was running: exit status {:?}", searching, other),
+            }
+            if let Some(p) = s.panicked() {
+                fail!("panic", "stderr: {}", p);
+            }
+            ev.class("sessions");
+            ev.class("sessions_ending_with_quit_while_searching");
+            return Ok(());
+        }
         // end of script: finish a running search, then no stray bestmove may follow
         if let Some(sr) = searching.clone() {
             s.send("stop");
@@ -414,7 +447,7 @@ impl Prop for C14 {
     }
 
     fn rule(&self) -> String {
-        "Cases (model-based): 3-16 GUI intents over {isready, uci, show, position, go depth|movetime|depth+movetime|clock|infinite, ucinewgame, stop, wait} interpreted by a GUI state machine (no game / game set / searching) so that every expectation is unambiguous, each preceded by a generated delay of 0/1/5/20/100 ms, together with a generated delay 0/20/100 ms for each of nine schedule points in command_go and the search-thread epilogue (before_flag_raise, after_flag_raise, timer_wakeup, before_search_spawn, search_thread_start, after_search_return, after_flag_clear, after_game_drop, after_bestmove_print). Run against the real binary built with the hooks. History invariants: exactly one bestmove per accepted go (never `none` here), each within its deadline (depth: grace; timed: budget + hook delays + grace; infinite: only after stop - the curated positions have no forced mate or single reply, so an infinite search that announces a move by itself, or a `go movetime T` answered well before T, is a violation: that is how a stale timer of an earlier `go depth d movetime T` shows), isready answered while idle and while searching, show/position/go refused while an infinite search runs, a position + go sent right after a bestmove line was read are honoured, no stray bestmove at the end, no panic on stderr, exit status 0 after quit. evaluations = commands issued. Non-trivial session: at least two searches and (a stretched schedule point or a command sent while searching); distinct by command script and delays.".into()
+        "Cases (model-based): 3-16 GUI intents over {isready, uci, show, position, go depth|movetime|depth+movetime|clock|infinite, ucinewgame, stop, wait} interpreted by a GUI state machine (no game / game set / searching) so that every expectation is unambiguous, each preceded by a generated delay of 0/1/5/20/100 ms, together with a generated delay 0/20/100 ms for each of nine schedule points in command_go and the search-thread epilogue (before_flag_raise, after_flag_raise, timer_wakeup, before_search_spawn, search_thread_start, after_search_return, after_flag_clear, after_game_drop, after_bestmove_print). Run against the real binary built with the hooks. History invariants: exactly one bestmove per accepted go (never `none` here), each within its deadline (depth: grace; timed: budget + hook delays + grace; infinite: only after stop - the curated positions have no forced mate or single reply, so an infinite search that announces a move by itself, or a `go movetime T` answered well before T, is a violation: that is how a stale timer of an earlier `go depth d movetime T` shows), isready answered while idle and while searching, show/position/go refused while an infinite search runs, ucinewgame while searching stops the search (its bestmove is there before the next readyok), quit while searching exits with status 0, a position + go sent right after a bestmove line was read are honoured, no stray bestmove at the end, no panic on stderr, exit status 0 after quit. evaluations = commands issued. Non-trivial session: at least two searches and (a stretched schedule point or a command sent while searching); distinct by command script and delays.".into()
     }
 
     fn assumptions(&self) -> Vec<String> {
